@@ -287,6 +287,7 @@ pub fn run_case(c: &Case) -> CaseOut {
 }
 
 pub fn run(tier: Tier) -> Report {
+    set_delta(1e-7);
     let mut rep = Report::new("C07", tier, "model_checking");
     let cs = cases(tier);
     rep.set("programs", cs.len() as u64);
